@@ -269,7 +269,7 @@ func cmdVerify(args []string) {
 		var tt float64
 		for _, x := range r.Results {
 			n++
-			if x.OK {
+			if x.OK || (x.O.Cover && !strings.HasSuffix(x.O.Name, "cover.pre") && expectedDead(w.CS.Funcs[r.Key], x.O.Name)) {
 				ok++
 			}
 			tt += x.R.Time
